@@ -404,9 +404,10 @@ Qed.
 Lemma proc_step a p : oc_step (a_chans a) (a_chans (fst (fst (proc a p)))) (snd (fst (proc a p))).
 Proof.
   unfold proc. destruct (p_ppid p =? DATA_CHANNEL_PPID_DCEP).
-  - match goal with |- context [handle_dcep ?a1 _ _] => set (A1 := a1) end.
-    assert (Hc : a_chans A1 = a_chans a) by (subst A1; destruct (rx_flag_u (p_flags p)); reflexivity).
-    rewrite <- Hc. apply handle_dcep_step.
+  - destruct (negb (rx_flag_e (p_flags p))); [cbn [fst snd a_chans]; apply oc_step_refl|].
+    match goal with |- context [handle_dcep ?a1 ?s ?d] => set (A1 := a1); pose proof (handle_dcep_step A1 s d) as H;
+      destruct (handle_dcep A1 s d) as [[a2 evs] ok] end.
+    cbn [fst snd] in H |- *. exact H.
   - cbn [fst snd]. apply proc_data_step.
 Qed.
 
@@ -423,7 +424,8 @@ Qed.
 Lemma recv_data_step st c :
   oc_step (a_chans (r_app st)) (a_chans (r_app (fst (recv_data st c)))) (snd (recv_data st c)).
 Proof.
-  unfold recv_data. destruct (data_is_dup _); [apply oc_step_refl|].
+  unfold recv_data. destruct (negb (SctpState_eqb (r_conn st) SctpState_Connected)); [apply oc_step_refl|].
+  destruct (data_is_dup _); [apply oc_step_refl|].
   destruct (_ && _).
   - pose proof (proc_step (r_app st) (c_p c)) as H. destruct (proc (r_app st) (c_p c)) as [[a1 e1] ok]. exact H.
   - destruct (take_run _ _ _) as [batch rq2].
@@ -436,7 +438,7 @@ Proof.
   induction pairs as [|[sid ssn] r IH]; intros a; cbn [fwd_streams]; [apply oc_step_refl|].
   destruct (sm_find sid (a_streams a)) as [s|]; [|apply IH].
   destruct (drain_ready (advance_ssn_to s ssn)) as [ready s'].
-  set (a1 := mkApp (a_chans a) (sm_set sid s' (a_streams a))).
+  set (a1 := mkApp3 (a_chans a) (sm_set sid s' (a_streams a)) (a_dcep a)).
   specialize (IH a1). destruct (fwd_streams a1 r) as [a2 e2]. cbn [fst snd] in IH |- *.
   eapply oc_step_trans; [|exact IH]. subst a1. cbn [a_chans].
   destruct (find_chan sid (a_chans a)) as [ch|] eqn:Ef; [|apply oc_step_refl].
@@ -536,4 +538,97 @@ Proof.
   rewrite (bulk_evs g_est Hown sid _ Hnd).
   rewrite Hf. unfold g_est. unfold connecting in Hc. rewrite Hc, Hneg. cbn [DataChannelState_eqb].
   apply find_chan_id in Hf. rewrite Hf, evs_of_cons_ev, Z.eqb_refl. reflexivity.
+Qed.
+
+(* ------------------------------------------------------------------ nothing is delivered before establishment *)
+(* From the start of run_loop (nothing queued, no stream state) no Message event is emitted while
+   the association is not established -- for EVERY kind of input (DATA is dropped, FORWARD-TSN and
+   RE-CONFIG find nothing to act on). Together with C12_establish_opens_negotiated: a negotiated
+   channel announces Open before its first message. *)
+Definition dormant (st : rstate) : Prop := r_rq st = [] /\ a_streams (r_app st) = [].
+
+Lemma fwd_streams_empty pairs a : a_streams a = [] -> fwd_streams a pairs = (a, []).
+Proof.
+  intros Hs. induction pairs as [|[sid ssn] r IH]; [reflexivity|]. cbn [fwd_streams]. rewrite Hs. cbn [sm_find]. exact IH.
+Qed.
+
+Lemma fold_remove_nil ids : fold_left (fun m sid => sm_remove sid m) ids [] = [].
+Proof. induction ids as [|x ids IH]; [reflexivity|exact IH]. Qed.
+
+Lemma reconfig_apply_dormant ps : forall st,
+  dormant st -> dormant (fst (reconfig_apply st ps)) /\ r_conn (fst (reconfig_apply st ps)) = r_conn st.
+Proof.
+  induction ps as [|[ty v] r IH]; intros st Hd; cbn [reconfig_apply]; [split; [exact Hd|reflexivity]|].
+  assert (H1 : dormant (fst (if ty =? RECONFIG_PARAM_OUTGOING_SSN_RESET then ssn_reset st v else (st, []))) /\
+               r_conn (fst (if ty =? RECONFIG_PARAM_OUTGOING_SSN_RESET then ssn_reset st v else (st, []))) = r_conn st).
+  { destruct (ty =? RECONFIG_PARAM_OUTGOING_SSN_RESET); [|split; [exact Hd|reflexivity]].
+    unfold ssn_reset. destruct (ssn_reset_streams v) as [[rsn ids]|]; [|split; [exact Hd|reflexivity]].
+    destruct (_ && _); [split; [exact Hd|reflexivity]|]. destruct Hd as [Hq Hs]. cbn [fst]. split; [|reflexivity].
+    split; cbn [r_rq r_app a_streams]; [exact Hq|]. destruct ids; [reflexivity|]. rewrite Hs. apply fold_remove_nil. }
+  destruct (if ty =? RECONFIG_PARAM_OUTGOING_SSN_RESET then ssn_reset st v else (st, [])) as [st1 e1]. cbn [fst] in H1.
+  destruct H1 as [Hd1 Hc1]. destruct (IH st1 Hd1) as [Hd2 Hc2]. destruct (reconfig_apply st1 r) as [st2 e2]. cbn [fst] in *.
+  split; [exact Hd2|congruence].
+Qed.
+
+Lemma step_silent_while_down st i :
+  dormant st -> r_conn st <> SctpState_Connected ->
+  (forall sid, log_of sid (snd (step st i)) = []) /\
+  (r_conn (fst (step st i)) <> SctpState_Connected -> dormant (fst (step st i))).
+Proof.
+  intros [Hq Hs] Hnc. unfold step. destruct (SctpState_eqb (r_conn st) SctpState_Closed); [split; [reflexivity|intros _; split; assumption]|].
+  assert (Hcon : connected st = false).
+  { unfold connected. destruct (r_conn st); try reflexivity. contradiction. }
+  destruct i as [c|t|t hc|valid| |n pairs|sid| |v].
+  - unfold recv_data. unfold connected in Hcon. rewrite Hcon. cbn [negb fst snd]. split; [reflexivity|intros _; split; assumption].
+  - rewrite Hcon. cbn [fst snd]. split; [reflexivity|intros _; split; assumption].
+  - rewrite Hcon. cbn [fst snd]. split; [intros sid; destruct hc; reflexivity|intros _; split; assumption].
+  - destruct valid; [|split; [reflexivity|intros _; split; assumption]].
+    unfold establish. pose proof (est_step (a_chans (r_app st))) as _. destruct (on_established _) as [cs evs] eqn:E.
+    cbn [fst snd]. split; [|intros H; exfalso; apply H; reflexivity].
+    intros sid. rewrite log_of_app. cbn [log_of flat_map List.app].
+    assert (Hl : forall l, log_of sid (snd (on_established l)) = []).
+    { induction l as [|x l IHl]; [reflexivity|]. cbn [on_established]. destruct (on_established l) as [l' e']. cbn [snd] in IHl.
+      destruct (DataChannelState_eqb _ _); [destruct (ch_negotiated x)|]; cbn [snd log_of flat_map List.app]; exact IHl. }
+    specialize (Hl (a_chans (r_app st))). rewrite E in Hl. exact Hl.
+  - unfold establish. destruct (on_established _) as [cs evs] eqn:E.
+    cbn [fst snd]. split; [|intros H; exfalso; apply H; reflexivity].
+    intros sid. cbn [List.app].
+    assert (Hl : forall l, log_of sid (snd (on_established l)) = []).
+    { induction l as [|x l IHl]; [reflexivity|]. cbn [on_established]. destruct (on_established l) as [l' e']. cbn [snd] in IHl.
+      destruct (DataChannelState_eqb _ _); [destruct (ch_negotiated x)|]; cbn [snd log_of flat_map List.app]; exact IHl. }
+    specialize (Hl (a_chans (r_app st))). rewrite E in Hl. exact Hl.
+  - unfold fwd_tsn. destruct (n >? r_cum st); [|split; [reflexivity|intros _; split; assumption]].
+    rewrite (fwd_streams_empty pairs (r_app st) Hs). cbn [fst snd]. split; [reflexivity|].
+    intros _. split; cbn [r_rq r_app]; [rewrite Hq; reflexivity|exact Hs].
+  - unfold close_channel. destruct (find_chan sid (a_chans (r_app st))) as [ch|].
+    + destruct (DataChannelState_eqb _ _); cbn [fst snd]; (split; [intros x; cbn; try reflexivity; destruct (sid =? x); reflexivity|]).
+      * intros _. split; assumption.
+      * intros _. split; cbn [r_rq r_app a_streams]; [exact Hq|rewrite Hs; reflexivity].
+    + cbn [fst snd]. split; [reflexivity|]. intros _. split; cbn [r_rq r_app a_streams]; [exact Hq|rewrite Hs; reflexivity].
+  - destruct (teardown _) as [cs evs] eqn:E. cbn [fst snd]. split.
+    + intros sid.
+      assert (Hl : forall l, log_of sid (snd (teardown l)) = []).
+      { induction l as [|x l IHl]; [reflexivity|]. cbn [teardown]. destruct (teardown l) as [l' e']. cbn [snd] in IHl.
+        destruct (DataChannelState_eqb _ _); cbn [snd log_of flat_map List.app]; exact IHl. }
+      specialize (Hl (a_chans (r_app st))). rewrite E in Hl. exact Hl.
+    + intros _. split; cbn [r_rq r_app a_streams]; assumption.
+  - destruct (handle_reconfig_frame st v) as [_ Hctl]. split; [intros sid; apply only_ctl_log; exact Hctl|].
+    intros _. unfold handle_reconfig. apply reconfig_apply_dormant. split; assumption.
+Qed.
+
+Fixpoint stays_down (st : rstate) (h : list input) : Prop :=
+  match h with
+  | [] => True
+  | i :: r => r_conn (fst (step st i)) <> SctpState_Connected /\ stays_down (fst (step st i)) r
+  end.
+
+Theorem no_message_before_established h : forall st,
+  dormant st -> r_conn st <> SctpState_Connected -> stays_down st h ->
+  forall sid, log_of sid (snd (run st h)) = [].
+Proof.
+  induction h as [|i h IH]; intros st Hd Hnc Hdown sid; [reflexivity|]. cbn [run]. destruct Hdown as [H1 H2].
+  destruct (step_silent_while_down st i Hd Hnc) as [Hl Hd1].
+  destruct (step st i) as [st1 e1]. cbn [fst snd] in *.
+  specialize (IH st1 (Hd1 H1) H1 H2 sid). destruct (run st1 h) as [st2 e2]. cbn [snd] in *.
+  rewrite log_of_app, Hl, IH. reflexivity.
 Qed.
